@@ -145,11 +145,20 @@ def run_reuse(inst):
             key = [k for k in syn.synapse_params][0]
             ps = m.select(edges=[rows[-1]]).data_set(key, 3.3e-4, ps)
     m.select(nodes=[len(m.nodes) - 1]).make_trainable("Leak_gLeak", verbose=False)
+    # static inputs stored on the module: a stimulus and, if there are synapses with states, a clamp on the LAST
+    # edge of each stateful type (global edge index != index within its type when types are interleaved)
+    m.select(nodes=[len(m.nodes) - 1]).stimulate(jnp.asarray([0.05, 0.1, 0.0]), verbose=False)
+    if len(m.edges):
+        for syn in m.synapses:
+            if syn.synapse_states:
+                rows = [i for i, t_ in enumerate(m.edges["type"]) if t_ == syn._name]
+                m.select(edges=[rows[-1]]).clamp(list(syn.synapse_states)[0], jnp.asarray([[0.3, 0.4, 0.5]]), verbose=False)
     params = m.get_parameters()
     ds = m.select(nodes=[0]).data_stimulate(jnp.asarray([[0.2, 0.1, 0.3]]), None)
     dc = m.select(nodes=[1]).data_clamp("v", jnp.asarray([[-60.0, -61.0, -62.0]]), None) if len(m.nodes) > 1 else None
     args = dict(params=params, param_state=ps, data_stimuli=ds, data_clamps=dc)
     snap = _deep_snapshot(args)
+    msnap = snapshot(m)
     f = lambda: jx.integrate(m, **args, **kw)
     r1 = np.asarray(f())
     changed = [k for k in args if not _deep_equal(snap[k], args[k])]
@@ -157,11 +166,22 @@ def run_reuse(inst):
     r3 = np.asarray(jax.jit(lambda p: jx.integrate(m, params=p, param_state=ps, data_stimuli=ds, data_clamps=dc, **kw))(params))
     r4 = np.asarray(f())
     changed2 = [k for k in args if not _deep_equal(snap[k], args[k])]
+    dev = lambda a, b: float(np.max(np.abs(a - b))) if a.shape == b.shape else float("inf")
     def viol(clause, what):
         res["violations"].append({"signature": {"clause": clause, "mode": "reused_inputs"}, "what": f"{name} {inst['solver']}/{inst['voltage_solver']}: {what}", "replay": {"inst": inst, "clause": clause, "mode": "reused_inputs"}})
     if changed or changed2:
         viol("arguments_untouched", f"integrate modified its arguments in place: {sorted(set(changed + changed2))}")
-    dev = lambda a, b: float(np.max(np.abs(a - b))) if a.shape == b.shape else float("inf")
+    # the same without any data_* argument (only the inputs stored on the module)
+    g = lambda: jx.integrate(m, params=params, param_state=ps, **kw)
+    s1 = np.asarray(g()); s2 = np.asarray(g())
+    s3 = np.asarray(jax.jit(lambda p: jx.integrate(m, params=p, param_state=ps, **kw))(params))
+    if not np.array_equal(s1, s2):
+        viol("repeat_bit_identical", f"second call (module-stored inputs only) differs by {dev(s1, s2):.3g}")
+    if dev(s1, s3) > 1e-9 * (1 + np.max(np.abs(s1))):
+        viol("jit_equals_eager", f"jitted call after eager calls (module-stored inputs only) differs by {dev(s1, s3):.3g}")
+    md = snap_equal(msnap, snapshot(m))
+    if md:
+        viol("module_untouched", f"integrate changed the module: {md}")
     if not np.array_equal(r1, r2):
         viol("repeat_bit_identical", f"second call with the same argument objects differs by {dev(r1, r2):.3g}")
     if dev(r1, r3) > 1e-9 * (1 + np.max(np.abs(r1))):
